@@ -40,6 +40,28 @@ class CallTimeout(BaseException):
     pass
 
 
+# Budget of time-outs for the whole check (all workers share one counter file): after
+# SLOW_AFTER time-outs every further call gets the short deadline only, after STOP_AFTER the
+# remaining jobs are skipped.  A tree on which MANY calls hang therefore costs at most
+# SLOW_AFTER long + (STOP_AFTER - SLOW_AFTER) short deadlines per worker, never a harness hang.
+SLOW_AFTER = 6
+STOP_AFTER = 30
+SHORT_CPU_LIMIT = 3.0
+
+
+def _shared_timeouts(add=0):
+    path = os.environ.get('C08_SHARED')
+    if not path:
+        return 0
+    try:
+        if add:
+            with open(path, 'a') as f:
+                f.write('x' * add)
+        return os.path.getsize(path)
+    except OSError:
+        return 0
+
+
 def _on_alarm(signum, frame):
     raise CallTimeout()
 
@@ -76,6 +98,30 @@ def loop_nesting(text):
         for ch in ast.iter_child_nodes(node):
             stack.append((ch, d))
     return best
+
+
+def depth_class(text):
+    """Input class of a text for stack-depth failures (open findings F48 / F50 are about long
+    scopes only): 'seq-compound>=40' if some statement list holds >= 40 compound statements,
+    'assign-chain>=150' if one holds >= 150 plain assignments, else 'small'."""
+    try:
+        tree = ast.parse(text)
+    except Exception:
+        return 'small'
+    compound = (ast.If, ast.For, ast.While, ast.Try, ast.With, ast.AsyncFor, ast.AsyncWith, ast.Match) + \
+        ((ast.TryStar,) if hasattr(ast, 'TryStar') else ())
+    best_c = best_a = 0
+    for node in ast.walk(tree):
+        for field in ('body', 'orelse', 'finalbody'):
+            stmts = getattr(node, field, None)
+            if isinstance(stmts, list) and stmts and isinstance(stmts[0], ast.stmt):
+                best_c = max(best_c, sum(1 for x in stmts if isinstance(x, compound)))
+                best_a = max(best_a, sum(1 for x in stmts if isinstance(x, (ast.Assign, ast.AnnAssign))))
+    if best_c >= 40:
+        return 'seq-compound>=40'
+    if best_a >= 150:
+        return 'assign-chain>=150'
+    return 'small'
 
 
 def loop_nesting_bucket(text):
@@ -181,6 +227,7 @@ class Runner(object):
         self.nontrivial = 0
         self.seen = set()
         self.root = None
+        self.timeouts = 0
         self.cpu_limit = CALL_CPU_LIMIT
         self.inputs = {}        # signature -> (api, text, pos, filename) of the smallest failing input
         signal.signal(signal.SIGPROF, _on_alarm)
@@ -247,7 +294,9 @@ class Runner(object):
                 return ('excused', None, '', 'RecursionError(parser too)')
             if pinfo[0] == 'ok' and pinfo[1] * FRAMES_PER_LEVEL + 100 >= sys.getrecursionlimit():
                 return ('excused', None, '', 'RecursionError(nesting %d)' % pinfo[1])
-            return ('error', self.signature(e), 'RecursionError (ast nesting %r, limit %d)' % (pinfo[1], sys.getrecursionlimit()), None)
+            sig = self.signature(e)
+            sig[2] = depth_class(text)      # a stack-depth failure on a small text is never one of the long-scope findings
+            return ('error', sig, 'RecursionError (ast nesting %r, limit %d, input class %s)' % (pinfo[1], sys.getrecursionlimit(), sig[2]), None)
         except Exception as e:
             if pinfo[0] == 'other':
                 return ('excused', None, '', 'out-of-domain')
@@ -273,7 +322,13 @@ class Runner(object):
         self.h('parse', api + ':' + pinfo[0])
         case = dict(case, api=api, pos=list(pos) if pos else None)
         inp = (api, text, tuple(pos) if pos else None, filename, self.root)
-        status, sig, detail, kind = self.classify(api, project, text, pos, filename, pinfo, self.cpu_limit)
+        limit = self.cpu_limit
+        if self.timeouts >= 2 or _shared_timeouts() >= SLOW_AFTER:
+            limit = min(limit, SHORT_CPU_LIMIT)
+        status, sig, detail, kind = self.classify(api, project, text, pos, filename, pinfo, limit)
+        if status == 'timeout':
+            self.timeouts += 1
+            _shared_timeouts(1)
         if sig is not None:
             self.record(sig, case, detail, inp)
             return status
@@ -401,7 +456,7 @@ def mutations(text, rng, n):
     nl = len(lines)
     if nl == 0:
         return out
-    kinds = ['truncline', 'dot', 'delline', 'truncfile', 'escape', 'escape_cls', 'halfimport', 'truncline', 'dot']
+    kinds = ['truncline', 'dot', 'delline', 'truncfile', 'escape', 'escape_cls', 'halfimport', 'truncline', 'dot', 'escape_nested']
     tries = 0
     while len(out) < n and tries < n * 6:
         tries += 1
@@ -453,6 +508,34 @@ def mutations(text, rng, n):
                 ln = len(new) - 1
                 col = 4 + len(stmt)
             out.append((kind, '\n'.join(new), (ln, col)))
+        elif kind == 'escape_nested':
+            # the statement stays where it is but a new scope is typed around it (the loop body /
+            # function body being wrapped into a helper def, class or lambda-like one-liner), or it
+            # is duplicated into the def / class that follows it
+            cand = [k for k in range(nl) if lines[k].lstrip().split(' ')[0].rstrip(':') in ESCAPEES
+                    and not lines[k].rstrip().endswith(('(', '[', '{', ',', '\\'))]
+            if not cand:
+                continue
+            k = rng.choice(cand)
+            l = lines[k]
+            ind = l[:len(l) - len(l.lstrip())]
+            stmt = l.strip()
+            form = rng.randrange(6)
+            if form == 0:
+                wrapped = [ind + 'def _helper():', ind + '    ' + stmt]
+            elif form == 1:
+                wrapped = [ind + 'class _Helper:', ind + '    ' + stmt]
+            elif form == 2:
+                wrapped = [ind + 'async def _helper(self, *a):', ind + '    x = lambda: 0', ind + '    ' + stmt, ind + '_helper()']
+            elif form == 3:
+                wrapped = [ind + 'def _helper():', ind + '    class _Inner:', ind + '        ' + stmt, ind + '    return _Inner']
+            elif form == 4:
+                wrapped = [ind + 'for _i in ():', ind + '    def _helper(): ' + stmt, ind + '    class _H: ' + stmt]
+            else:
+                wrapped = [l, ind + 'def _helper(): ' + stmt]
+            new = lines[:k] + wrapped + lines[k + 1:]
+            j = k + min(len(wrapped) - 1, 1 + (form in (2, 3)))
+            out.append((kind, '\n'.join(new), (j + 1, len(new[j]))))
         elif kind == 'halfimport':
             cand = [k for k in range(nl) if lines[k].lstrip().startswith(('import ', 'from '))]
             if not cand:
@@ -615,6 +698,9 @@ def run_jobs(jobs, repo, progress=None):
             if progress:
                 with open(progress, 'w') as f:
                     f.write(str(k))
+            if _shared_timeouts() >= STOP_AFTER:
+                R.h('skipped', 'jobs skipped after %d time-outs in this run' % STOP_AFTER, len(jobs) - k)
+                break
             if job['kind'] == 'file':
                 job_file(R, job, tmp)
             else:
@@ -851,6 +937,65 @@ def gen_nested_loops(rng, depth=None):
     return src, [[last, 1]]
 
 
+ESCAPE_STMTS = ['break', 'continue', 'return', 'return a', 'yield', 'yield a', 'a = yield', 'await a', 'yield from a', 'raise',
+                'nonlocal a', 'global a', 'a = (yield)', 'return (yield)', 'b = await a']
+ESCAPE_CTX = ['for a in b:', 'while a:', 'def f():', 'async def f(self):', 'class A:', 'class A(B):', 'with a as b:', 'try:', 'if a:',
+              'async for a in b:', 'else:', 'finally:', 'except E as e:', 'match a:\n{i}    case b:', 'for a in b:\n{i}    pass\n{i}else:',
+              'f = lambda: 0\n{i}def g(x=lambda: a):', '@a\n{i}def f():', 'while a:\n{i}    pass\n{i}else:']
+
+
+def gen_escape_program(rng):
+    """A control statement (break / continue / return / yield / await / nonlocal / ...) below a random
+    chain of 1-4 enclosing constructs: loops, defs, classes, with, try parts, if, match - the typing
+    states 'statement moved outside (or into) its construct' that ast.parse accepts."""
+    depth = rng.randint(1, 4)
+    out = []
+    ind = ''
+    opened = []
+    for d in range(depth):
+        c = rng.choice(ESCAPE_CTX)
+        if c in ('else:', 'finally:', 'except E as e:'):
+            out.append(ind + 'try:')
+            out.append(ind + '    ' + rng.choice(ESCAPE_STMTS + ['pass', 'a = 1']))
+            if c == 'else:':
+                out.append(ind + 'except E:')
+                out.append(ind + '    pass')
+        elif c == 'try:':
+            opened.append(ind)
+        out.extend((ind + c.replace('{i}', ind)).split('\n'))
+        if rng.random() < 0.4:
+            out.append(ind + '    ' + rng.choice(['a = b', 'b = a.x', 'a.b = 1', 'import m1', 'x = [a for a in b]']))
+        ind += '    ' if 'case b:' not in c else '        '
+    out.append(ind + rng.choice(ESCAPE_STMTS))
+    if rng.random() < 0.5:
+        out.append(ind + rng.choice(['a.x', 'b = a', 'f()']))
+    # close open try statements
+    for i in reversed(opened):
+        out.append(i + rng.choice(['finally:', 'except E:']))
+        out.append(i + '    ' + rng.choice(ESCAPE_STMTS + ['pass']))
+    out.append(rng.choice(['a', 'f().x', 'A().a', 'b.x', 'f']))
+    src = '\n'.join(out) + '\n'
+    return src
+
+
+def escape_jobs(rng, n):
+    jobs = []
+    tries = 0
+    while len(jobs) < n and tries < n * 5:
+        tries += 1
+        src = gen_escape_program(rng)
+        try:
+            ast.parse(src)
+        except (SyntaxError, ValueError, RecursionError):
+            continue            # only typing states the parser accepts: the analysis has to cope with them
+        lines = src.split('\n')
+        cand = [(ln, m.end()) for ln, l in enumerate(lines, 1) for m in IDENT.finditer(l) if not keyword.iskeyword(m.group(0))]
+        rng.shuffle(cand)
+        jobs.append({'kind': 'text', 'source': src, 'files': CYCLE_FILES[0], 'positions': [list(c) for c in cand[:6]] + [[len(lines) - 1, len(lines[-2])]],
+                     'tag': 'escape-gen', 'filename': 'main.py', 'cpu_limit': 10})
+    return jobs
+
+
 def nested_loop_jobs(rng, n):
     jobs = []
     for i in range(n):
@@ -884,7 +1029,11 @@ def gen_project_files(rng):
         if form < 0.3:
             body.append('from %s import *' % other)
         elif form < 0.6:
-            body.append('from %s import %s' % (other, rng.choice(['x', 'A', 'B', 'a', 'f'])))
+            nm = rng.choice(['x', 'A', 'B', 'a', 'f'])
+            body.append('from %s import %s%s' % (other, nm, rng.choice(['', '', ' as %s' % rng.choice(['x', 'A', 'a', 'f'])])))
+            if rng.random() < 0.4:
+                # re-export round the cycle under changing names
+                body.append('from %s import %s as %s' % (other, rng.choice(['x', 'a']), rng.choice(['x', 'a'])))
         elif form < 0.8:
             body.append('import %s' % other)
         body.append('class %s(%s): %s = 1' % (rng.choice(['A', 'B']), rng.choice(['A', 'B', 'object', other + '.A', 'x']), rng.choice(['a', 'b'])))
@@ -954,6 +1103,15 @@ SPECIAL_CASES = [
     ('lambda', 'class R(B):\n    f = lambda self: super().|\n'), ('lambda', 'class R:\n    rank = 0\n    f = lambda self: (yield self.|rank)\n'),
     ('lambda', 'class R:\n    rank = 0\n    async def m(self):\n        await self.|rank\n'), ('lambda', 'class R:\n    rank = 0\n    @classmethod\n    def m(cls): cls.|rank\n'),
     ('lambda', 'class R:\n    rank = 0\n    @staticmethod\n    def m(x): x.|rank\n'), ('lambda', 'class R:\n    rank = 0\n    @a.b\n    def m(self): self.|rank\n'),
+    ('escape', 'for a in b:\n    def f():\n        break\na|\n'), ('escape', 'while a:\n    class A:\n        break\nA.|\n'),
+    ('escape', 'for a in b:\n    def f():\n        continue\n    f|\n'), ('escape', 'for a in b:\n    class A:\n        continue\n    a|\n'),
+    ('escape', 'for a in b:\n    x = 1\n    def f(): break\n    x|\nx.|\n'), ('escape', 'def g():\n    for a in b:\n        def f():\n            break\n        a|\n    return a\n'),
+    ('escape', 'for a in b:\n    for c in a:\n        class A:\n            def m(self):\n                break\n        c|\n'), ('escape', 'while a:\n    f = lambda: 0\n    def g(): break\n    g|\n'),
+    ('escape', 'for a in b:\n    async def f():\n        await a\n        break\n    else:\n        continue\na|\n'), ('escape', 'for a in b:\n    pass\nelse:\n    break\na|\n'),
+    ('escape', 'class A:\n    for a in b:\n        def f(self):\n            break\n    a|\nA.|\n'), ('escape', 'for a in b:\n    try:\n        def f(): break\n    finally:\n        class B: continue\na|\n'),
+    ('escape', 'for a in b:\n    with a as c:\n        def f():\n            return\n            break\n    c|\n'), ('escape', 'break\ncontinue\nfor a in b:\n    def f():\n        for c in a:\n            def g(): break\n            break\n        break\na|\n'),
+    ('escape', 'def f():\n    class A:\n        return 1\n        yield\n    return A|\n'), ('escape', 'class A:\n    yield\n    await x\n    x = (yield)\nA.|\n'),
+    ('escape', 'lambda: (yield)\nx = [(yield) for a in b]\nx|\n'), ('escape', 'def f():\n    nonlocal a\n    global b\nnonlocal c\nf|\n'),
     ('typeparam', 'def f[T: in|t](x: T): pass\n'), ('typeparam', 'def f[T: int|](x: T): pass\n'), ('typeparam', 'def f[T|: int](x: T): pass\n'),
     ('typeparam', 'def f[T](x: T|): pass\n'), ('typeparam', 'class A[T: (int, st|r)]: pass\n'), ('typeparam', 'class A[T: m1.|A](m1.A): pass\n'),
     ('typeparam', 'type X[T: in|t] = list[T]\n'), ('typeparam', 'type X = in|t\n'), ('typeparam', 'def f[*Ts, **P](x: T|s): pass\n'),
@@ -982,6 +1140,10 @@ CYCLE_FILES = [
      'm2.py': 'import m3\nclass A(m3.A): a = 1\nx = m3.x\ndef f(): return m3.f()\n',
      'm3.py': 'import m1\nclass A(m1.A): a = 1\nx = m1.x\ndef f(): return m1.f()\n'},
     {'m1.py': 'from m1 import x\nfrom m1 import *\nimport m1\nclass A(m1.A): pass\n'},
+    # re-export cycles: a renaming 3-cycle and the try/except ImportError pair CPython really imports
+    {'m1.py': 'from m2 import y as x\nfrom m2 import B as A\nfrom m2 import g as f\n', 'm2.py': 'from m3 import z as y\nfrom m3 import C as B\nfrom m3 import h as g\n',
+     'm3.py': 'from m1 import x as z\nfrom m1 import A as C\nfrom m1 import f as h\n'},
+    {'m1.py': 'try:\n    from m2 import x, A, f\nexcept ImportError:\n    x = None\n', 'm2.py': 'try:\n    from m1 import x, A, f\nexcept ImportError:\n    x = None\n'},
     {'m1.py': 'x = 1\nclass A: a = 1\ndef f(): return A()\n', 'pkg/__init__.py': 'from .sub import *\n', 'pkg/sub.py': 'from . import *\nfrom .. import m1\nclass A: pass\n'},
 ]
 
@@ -1099,7 +1261,13 @@ class IGen(object):
                 self.defined.append(o)
             elif k < 0.7:
                 nm = r.choice(self.VARS + self.FUNCS + self.CLASSES + ['nosuch'])
-                out.append('from %s import %s' % (o, nm))
+                if r.random() < 0.3:
+                    # re-export under another name (renaming cycles across modules)
+                    nm2 = r.choice(self.VARS + self.FUNCS + self.CLASSES)
+                    out.append('from %s import %s as %s' % (o, nm, nm2))
+                    nm = nm2
+                else:
+                    out.append('from %s import %s' % (o, nm))
                 self.defined.append(nm)
             elif k < 0.8:
                 out.append('from %s import *' % o)
@@ -1107,7 +1275,7 @@ class IGen(object):
 
     def project(self):
         r = self.r
-        nmod = r.choice([0, 1, 2, 2])
+        nmod = r.choice([0, 1, 2, 2, 3])
         names = ['m%d' % (i + 1) for i in range(nmod)]
         files = {}
         for nm in names:
@@ -1458,6 +1626,23 @@ HERE = os.path.dirname(os.path.abspath(__file__))
 CORPUS = os.path.join(os.path.dirname(os.path.dirname(HERE)), 'corpus', 'C08')
 
 
+class _Deadline(object):
+    """with _Deadline(seconds): ... raises CallTimeout in the main thread after that much CPU time."""
+    def __init__(self, seconds):
+        self.seconds = seconds
+
+    def __enter__(self):
+        signal.signal(signal.SIGPROF, _on_alarm)
+        signal.setitimer(signal.ITIMER_PROF, self.seconds)
+
+    def __exit__(self, *a):
+        signal.setitimer(signal.ITIMER_PROF, 0)
+        return False
+
+
+INPROC_CPU_LIMIT = 20.0
+
+
 def _run_chunks(ctx, jobs, chunk, wall):
     """Run jobs in worker subprocesses (16 at a time). Returns list of per-chunk results."""
     import subprocess
@@ -1475,7 +1660,7 @@ def _run_chunks(ctx, jobs, chunk, wall):
         op = os.path.join(outdir, 'o%d.json' % (base + i))
         with open(jp, 'w') as f:
             json.dump(c, f)
-        env = dict(os.environ, SUPP_REPO=REPO, PYTHONHASHSEED='0', SUPP_VERIF='1')
+        env = dict(os.environ, SUPP_REPO=REPO, PYTHONHASHSEED='0', SUPP_VERIF='1', C08_SHARED=os.path.join(outdir, 'timeouts'))
         env.pop('PYTHONPATH', None)
         try:
             p = subprocess.run([PY, os.path.join(HERE, 'c08.py'), '--worker', jp, op], env=env,
@@ -1526,7 +1711,7 @@ def _special_jobs():
         for k, files in enumerate(CYCLE_FILES):
             for fn in ('main.py', 'pkg/main.py'):
                 jobs.append({'kind': 'text', 'source': s, 'files': files, 'positions': [pos], 'tag': tag, 'filename': fn})
-            if k < 2:
+            if k < 2 or k in (5, 6):
                 # unsaved buffer: filename=None
                 jobs.append({'kind': 'text', 'source': s, 'files': files, 'positions': [pos], 'tag': tag + ':unsaved', 'filename': None})
     return jobs
@@ -1572,7 +1757,11 @@ def _shape_cases(ctx, samples):
     def has_loc(n):
         return hasattr(n, 'declared_at')
 
+    slow = 0
     for k, (text, pos, files) in enumerate(samples):
+        if slow >= 3:
+            ctx.notes.append('shape level stopped after 3 time-outs')
+            break
         d = os.path.join(root, 'p%d' % k)
         os.makedirs(d, exist_ok=True)
         for name, content in files.items():
@@ -1584,13 +1773,17 @@ def _shape_cases(ctx, samples):
         pinfo = parse_info(text, fn)
         if pinfo[0] != 'other':
             try:
-                res = lint(project, text, fn)
+                with _Deadline(INPROC_CPU_LIMIT):
+                    res = lint(project, text, fn)
                 cs = [codes.get(t[0], 9) for t in res]
                 if len(cs) <= 60:
                     lint_terms.append('(%s, [%s])' % ('true' if pinfo[0] == 'syntax' else 'false', '; '.join(str(c) for c in cs)))
                     keep.append(('lint', text, None))
+            except CallTimeout:
+                slow += 1
+                continue
             except Exception:
-                pass      # crashes are the business of the exploration
+                pass      # crashes (and time-outs) are the business of the exploration
         if pos is None:
             continue
         if parse_info(marked_text(text, pos), fn)[0] != 'ok':
@@ -1611,7 +1804,11 @@ def _shape_cases(ctx, samples):
         evaluator.EvalCtx.declarations = rec2
         try:
             try:
-                out = assistant.location(project, text, tuple(pos), fn)
+                with _Deadline(INPROC_CPU_LIMIT):
+                    out = assistant.location(project, text, tuple(pos), fn)
+            except CallTimeout:
+                slow += 1
+                continue
             except Exception:
                 continue
         finally:
@@ -1660,6 +1857,7 @@ def run(ctx):
         'exploration (direct evaluator): every lint/assist/location call of the real code on (a) stdlib+repo files with sampled cursor '
         'positions (identifier ends, after dots, import lines, random, end of file), (b) typing-state mutations of them (line truncated at the '
         'cursor, trailing dot, deleted line, truncated file, return/yield/break/... moved to module or class level, half-typed import), '
+        '(c3) control statements (break/continue/return/yield/await/nonlocal/...) below random chains of loops, defs, classes, with, try parts, match (typing states ast.parse accepts although the compiler rejects them: inside the stated domain), '
         '(c2) programs of 3-6 nested for/while loops whose bodies branch (if/else, elif, try, with, comprehension), deadline 10 s of CPU per call (the unmodified tree needs < 0.3 s), '
         '(c) generated programs with sibling modules (import / star-import / inheritance cycles, packages; lambdas in class bodies), every position, '
         'a third of them and a sample of positions of every file also as an unsaved buffer (filename=None, worker cwd inside a package), (d) cursor on '
@@ -1695,6 +1893,7 @@ def run(ctx):
     ncases = ctx.pick(250, 3000)
     cases, fcases, meta = [], [], []
     unsupported = 0
+    i_timeouts = 0
     iroot = os.path.join(ctx.scratch, 'icases')
     private_ok = True
     for i in range(ncases):
@@ -1702,8 +1901,21 @@ def run(ctx):
         files, src, nq = g.project()
         root = os.path.join(iroot, 'p%d' % i)
         os.makedirs(root)
+        if i_timeouts >= 3:
+            ctx.notes.append('(I) stopped after 3 time-outs of the real engines')
+            break
         try:
-            gt, qs, crashes, fl, nn = analyse_project(root, files, src, nq)
+            with _Deadline(INPROC_CPU_LIMIT):
+                gt, qs, crashes, fl, nn = analyse_project(root, files, src, nq)
+        except CallTimeout:
+            i_timeouts += 1
+            key = json.dumps(['Timeout', 'evaluate/declarations', 0, 'I'])
+            counts[key] = counts.get(key, 0) + 1
+            if key not in fails or len(src) < fails[key]['size']:
+                fails[key] = {'sig': json.loads(key), 'size': len(src),
+                              'detail': 'analysing the project / EvalCtx.evaluate / declarations of a query did not answer within %.0f s of CPU time' % INPROC_CPU_LIMIT,
+                              'case': {'kind': 'text', 'source': src, 'files': files, 'filename': 'main.py', 'tag': 'I', 'api': 'assist', 'pos': None}}
+            continue
         except Unsupported as e:
             unsupported += 1
             ctx.histogram('I_unsupported', str(e)[:60])
@@ -1743,10 +1955,14 @@ def run(ctx):
             text = open(fn, encoding='utf8').read()
             if len(text) > 60000:
                 continue
-            source = Source(text, fn)
-            sc = SourceScope(source)
-            extract(source.tree, sc.flow)
-            fg, depths, nflows, nloops = dump_flows(sc)
+            with _Deadline(INPROC_CPU_LIMIT):
+                source = Source(text, fn)
+                sc = SourceScope(source)
+                extract(source.tree, sc.flow)
+                fg, depths, nflows, nloops = dump_flows(sc)
+        except CallTimeout:
+            ctx.notes.append('flow graph of %s not dumped: time-out' % fn)
+            continue
         except (SyntaxError, UnicodeDecodeError, ValueError, RecursionError, KeyError, TypeError):
             continue
         except AttributeError as e:
@@ -1842,6 +2058,7 @@ def run(ctx):
         jobs.append({'kind': 'text', 'source': src, 'files': gen_project_files(erng), 'positions': 'all' if len(src) < 350 else 50,
                      'seed': i, 'tag': 'gen', 'filename': erng.choice(['main.py', 'main.py', 'pkg/main.py']), 'nofile': i % 3 == 0})
     nl_jobs = nested_loop_jobs(erng, ctx.pick(16, 200))
+    jobs += escape_jobs(erng, ctx.pick(150, 3000))
     # big files first (long pole), then the rest interleaved
     def weight(j):
         if j['kind'] == 'file':
